@@ -5,7 +5,8 @@
   `List.Perm` of `usplits` / `tipLens` means: the same splits with the same lengths and
   supports (as a multiset; the lists themselves are sorted by a printing of the side).
 -/
-import Gotree.Lemmas.C05Clade
+import Gotree.Lemmas.C05Cli
+import Gotree.Lemmas.C05OrientPath
 
 /- The property theorems live in `Gotree.C05.P` (the shared lemma file already uses the
    plain names `C05.moveRoot_dist` … for its general versions). -/
@@ -229,6 +230,22 @@ theorem outgroup_clade_oracle (t t' : T) (strict : Bool) (S : List String)
    fun hside hD => cladeOK_of t t' strict S h ((uniq_iff t).1 hu) ((lensOK_iff t).1 hl) ((supsOK_iff t).1 hs)
      hside ((branchesDistinct_iff t).1 hD)⟩
 
+/-- the hypothesis `branchesDistinct` follows from a structural one: distinct tip names and no
+    node with exactly one child (`T.noSingle`: no node with exactly two neighbours; the root of a
+    rooted tree does not count, `UnRoot` removes it) -/
+theorem branchesDistinct_of_noSingle (t : T) (hu : uniq t = true) (hns : t.noSingle = true) :
+    branchesDistinct t = true :=
+  Gotree.C05.branchesDistinct_of_noSingle t ((uniq_iff t).1 hu) hns
+
+/-- `outgroup_clade_oracle` with structural hypotheses only -/
+theorem outgroup_clade_structural (t t' : T) (strict : Bool) (S : List String)
+    (hu : uniq t = true) (hl : lensOK t = true) (hs : supsOK t = true) (hns : t.noSingle = true)
+    (hside : strict = true ∨ isSide t S = true)
+    (h : rerootOutGroup false strict S t = .ok t') : cladeOK t S t' = true :=
+  (outgroup_clade_oracle t t' strict S hu hl hs h).2 hside (branchesDistinct_of_noSingle t hu hns)
+
+example : exT.noSingle = true := by decide
+
 /-- `outgroup_clade`, removal requested: when `RerootOutGroup(remove = true)` succeeds on an
     outgroup that is one side of a split (or in strict mode), the outgroup is absent and
     everything else is intact: the tips are exactly the tips that are not in the outgroup, and
@@ -303,6 +320,19 @@ example : (rerootOutGroup false true ["B", "zz", "A", "B"] exT).cls = "ok" ∧
     (rerootOutGroup false true ["A", "C"] exT).cls = "err" ∧
     (rerootOutGroup false false ["A", "C"] exT).cls = "ok" := by decide +kernel
 
+/-- What `UnRoot` does with a node that has exactly two neighbours: when the first root child has
+    exactly one child, that child becomes the root of a tree whose root has two neighbours again —
+    the result is still "rooted" (`Tree.Rooted()`), although tips, splits, lengths and distances are
+    kept (`unroot_preserves` needs no hypothesis on such nodes).  Without such nodes the result is
+    never rooted (`unroot_noSingle`). -/
+theorem unroot_single_child_stays_rooted (d d1 d2 : NodeD) (p p1 p2 : Nat) (e1 e2 : EdgeD) (k : EdgeD × T) (k2 : Kids) :
+    (unroot (.node d p [(e1, .node d1 p1 [k]), (e2, .node d2 p2 k2)])).rooted = true := by
+  rw [unroot_rooted]; rfl
+
+theorem unroot_result_not_rooted (t : T) (h : t.noSingle = true) : (unroot t).rooted = false := by
+  have := (unroot_noSingle t h).2
+  simp [T.rooted, this]
+
 /-- `UnRoot` does nothing to a tree that is not rooted. -/
 theorem unroot_not_rooted (t : T) (h : t.rooted = false) : unroot t = t := by
   unfold unroot
@@ -310,6 +340,124 @@ theorem unroot_not_rooted (t : T) (h : t.rooted = false) : unroot t = t := by
   · simp [T.rooted] at h
   · rfl
 
+
+/-! ## orientation (`SetRoot`, `ReorderEdges`, `Parent`, `ParentEdge`, `RerootFirst`) -/
+
+/-- After `Reroot` every branch points away from the root: `t.root = n; ReorderEdges(n, nil, …)`
+    applied to a correctly oriented heap yields the correctly oriented heap of the re-rooted
+    tree (`orient` gives every branch the flag "left is the end nearer the root"), and the branches
+    reported as reversed are exactly those that pointed the wrong way after `t.root = n`. -/
+theorem reroot_oriented (t : T) (path : List Nat) :
+    (rerootO t path).1 = orient (rerootP t path none []).1 ∧
+    (rerootO t path).2 = (setRootO (orient t) path none).wrong ∧
+    (∀ f ∈ (rerootO t path).1.flags, f = true) ∧ (rerootO t path).1.wrong = [] := by
+  refine ⟨rerootO_oriented t path, rerootO_reversed t path, ?_, ?_⟩
+  · rw [rerootO_oriented]; exact flags_orient _
+  · rw [rerootO_oriented]; exact wrong_orient _
+
+/-- `Reroot(n)` inverts exactly the branches on the path from the old root to `n` (any path that
+    exists in the tree), and `ReorderEdges` reports them from `n` outwards -/
+theorem reroot_reverses_path (t : T) (path : List Nat) (hv : (edgesAlong t path).length = path.length) :
+    (rerootO t path).2 = (edgesAlong t path).reverse :=
+  rerootO_reversed_path t path (by rw [edgesAlong_eq] at hv; exact hv)
+
+example : (edgesAlong exT [0, 1]).length = 2 ∧ (rerootO exT [0, 1]).2.map (·.id) = [2, 0] := by decide +kernel
+
+/-- whatever the orientation before, `ReorderEdges` from the root leaves every branch pointing away
+    from the root, changes nothing else, and reports exactly the branches it inverted -/
+theorem reorder_orients (o : OT) : o.reorder.1 = orient o.erase ∧ o.reorder.2 = o.wrong :=
+  ⟨reorder_fst o, reorder_snd o⟩
+
+/-- in a correctly oriented heap `Parent()` / `ParentEdge()` find no parent for the root and exactly
+    the parent for every other node -/
+theorem parents_after_reorder (o : OT) :
+    ∃ rest, o.reorder.1.parents none = "none" :: rest ∧ ∀ s ∈ rest, s = "parent" := by
+  rw [reorder_fst]; exact parents_of_oriented _
+
+/-- `RerootFirst` is `Reroot` on the first node with three neighbours: it preserves the tree -/
+theorem rerootFirst_preserves (t t' : T) (hu : uniq t = true) (hl : lensOK t = true)
+    (h : rerootFirst t = .ok t') :
+    t'.tipNames.Perm t.tipNames ∧ t'.usplits.Perm t.usplits ∧ t'.tipLens.Perm t.tipLens ∧
+    ∀ a b, a ∈ t.tipNames → b ∈ t.tipNames → t'.dist a b = t.dist a b := by
+  unfold rerootFirst at h
+  split at h
+  · cases h
+  · exact reroot_preserves t t' _ hu hl h
+
+example : (rerootFirst exT).cls = "ok" ∧ (rerootO exT [0]).2.map (·.id) = [0] := by decide +kernel
+
+/-! ## the command line (`gotree reroot outgroup|midpoint`, `unroot`, `rotate rand|sort`) -/
+
+/-- the tip file (-l) wins over the arguments; with neither the command fails -/
+theorem cli_tips_priority (ls args : List String) :
+    cliTips (some ls) args = .ok (parseTipsFile ls) ∧
+    (args ≠ [] → cliTips none args = .ok args) ∧ (cliTips none []).cls = "err" := by
+  refine ⟨rfl, ?_, rfl⟩
+  intro h; cases args with
+  | nil => exact absurd rfl h
+  | cons a r => rfl
+
+/-- `reroot outgroup` (outgroup kept) and `reroot midpoint` on a file of several trees: the trees
+    written are, in order, the results for a prefix of the input trees; each of them is the
+    corresponding input tree (tips, splits, lengths, supports, distances: `preserved`); and the
+    command ends "ok" exactly when every tree was written. -/
+theorem cli_written_trees (kind : CliKind) (strict : Bool) (file : Option (List String)) (args : List String)
+    (draws : List Nat) (trees : List T) (hk : kind = .outgroup ∨ kind = .midpoint)
+    (hyp : ∀ t ∈ trees, uniq t = true ∧ lensOK t = true ∧ supsOK t = true ∧ keysOK t = true) :
+    (cliRun kind false strict file args draws trees).1.length ≤ trees.length ∧
+    (∀ (i : Nat) (u : T), (cliRun kind false strict file args draws trees).1[i]? = some u →
+      ∃ t, trees[i]? = some t ∧ preserved t u = true) := by
+  rcases hk with rfl | rfl
+  · simp only [cliRun]
+    cases htips : cliTips file args with
+    | ok tips =>
+      simp only
+      obtain ⟨h1, h2, _⟩ := cliLoop_spec (rerootOutGroup false strict tips) trees
+      refine ⟨h1, fun i u hu => ?_⟩
+      obtain ⟨t, ht, hop⟩ := h2 i u hu
+      obtain ⟨a, b, c, d⟩ := hyp t (List.mem_of_getElem? ht)
+      exact ⟨t, ht, (ops_preserved t a b c d).2.2.2.2.1 strict tips u hop⟩
+    | err m => simp
+    | panic m => simp
+  · simp only [cliRun]
+    obtain ⟨h1, h2, _⟩ := cliLoop_spec rerootMidPoint trees
+    refine ⟨h1, fun i u hu => ?_⟩
+    obtain ⟨t, ht, hop⟩ := h2 i u hu
+    obtain ⟨a, b, c, d⟩ := hyp t (List.mem_of_getElem? ht)
+    exact ⟨t, ht, (ops_preserved t a b c d).2.2.2.2.2 u hop⟩
+
+/-- `unroot`, `rotate rand` (whatever the seed) and `rotate sort` write exactly one tree per input
+    tree, each being the corresponding input tree (`preserved`), and end "ok". -/
+theorem cli_written_trees_total (kind : CliKind) (rm strict : Bool) (file : Option (List String)) (args : List String)
+    (draws : List Nat) (trees : List T) (hk : kind = .unroot ∨ kind = .rotateRand ∨ kind = .rotateSort)
+    (hyp : ∀ t ∈ trees, uniq t = true ∧ lensOK t = true ∧ supsOK t = true ∧ keysOK t = true) :
+    (cliRun kind rm strict file args draws trees).2 = "ok" ∧
+    (cliRun kind rm strict file args draws trees).1.length = trees.length ∧
+    (∀ (i : Nat) (u : T), (cliRun kind rm strict file args draws trees).1[i]? = some u →
+      ∃ t, trees[i]? = some t ∧ preserved t u = true) := by
+  rcases hk with rfl | rfl | rfl
+  · simp only [cliRun, List.length_map, List.getElem?_map, true_and]
+    intro i u hu
+    cases ht : trees[i]? with
+    | none => simp [ht] at hu
+    | some t =>
+      simp only [ht, Option.map_some, Option.some.injEq] at hu
+      obtain ⟨a, b, c, d⟩ := hyp t (List.mem_of_getElem? ht)
+      exact ⟨t, rfl, hu ▸ (ops_preserved t a b c d).2.1⟩
+  · simp only [cliRun, true_and]
+    obtain ⟨h1, h2⟩ := cliRotate_spec trees draws
+    refine ⟨h1, fun i u hu => ?_⟩
+    obtain ⟨t, ds, ht, rfl⟩ := h2 i u hu
+    obtain ⟨a, b, c, d⟩ := hyp t (List.mem_of_getElem? ht)
+    exact ⟨t, ht, (ops_preserved t a b c d).2.2.1 ds⟩
+  · simp only [cliRun, List.length_map, List.getElem?_map, true_and]
+    intro i u hu
+    cases ht : trees[i]? with
+    | none => simp [ht] at hu
+    | some t =>
+      simp only [ht, Option.map_some, Option.some.injEq] at hu
+      obtain ⟨a, b, c, d⟩ := hyp t (List.mem_of_getElem? ht)
+      exact ⟨t, rfl, hu ▸ (ops_preserved t a b c d).2.2.2.1⟩
 
 /-! ## the repaired defects, as theorems about the variants of the model that reproduce them -/
 
